@@ -178,10 +178,42 @@ Proof.
   - intros p _. rewrite Hm. apply option_eqb_Z_refl.
 Qed.
 
-Lemma book_is_obs i b n :
-  book_is (delta_of (c_deltas i)) b n -> obs_book_is i b = true.
+(** [Bcap] is [B]: nothing changes below the first id of the simulated exchange nor above its
+    last one *)
+Lemma payload_skip delta sd base n :
+  (forall k, (k < base)%N -> delta k = ([], [])) -> payload delta sd 0 n = payload delta sd base n.
 Proof.
-  intros (Hs & [Hb Ha] & Lb & La). unfold obs_book_is. rewrite Hs.
+  intros H. destruct (N.eq_dec base 0) as [->|Hb]; [reflexivity|].
+  destruct (N.le_gt_cases base (n + 1)) as [Hle|Hgt].
+  - rewrite (payload_split delta sd 0 (base - 1) n) by lia.
+    replace (base - 1 + 1)%N with base by lia.
+    unfold payload at 1. rewrite cat_nil; [reflexivity|]. intros k _ Hk. apply H. lia.
+  - unfold payload. replace (N.to_nat (n + 1 - base)) with 0%nat by lia. cbn [cat].
+    apply cat_nil. intros k _ Hk. apply H. lia.
+Qed.
+
+Lemma delta_of_below base dl k : (k < base)%N -> delta_of base dl k = ([], []).
+Proof. intros H. unfold delta_of. destruct (N.ltb_spec k base); [reflexivity|lia]. Qed.
+
+Lemma delta_of_above base dl k : (base + N.of_nat (length dl) <= k)%N -> delta_of base dl k = ([], []).
+Proof.
+  intros H. unfold delta_of. destruct (N.ltb_spec k base); [reflexivity|]. apply nth_overflow. lia.
+Qed.
+
+Lemma Bcap_B i sd n : Bcap i sd n = B (delta_i i) sd n.
+Proof.
+  unfold Bcap, B. rewrite <- (payload_skip (delta_i i) sd (c_base i)) by (intros k Hk; apply delta_of_below; exact Hk).
+  fold (B (delta_i i) sd (N.min n (c_base i + N.of_nat (length (c_deltas i))))). fold (B (delta_i i) sd n).
+  destruct (N.le_gt_cases n (c_base i + N.of_nat (length (c_deltas i)))) as [Hle|Hgt].
+  - rewrite N.min_l by exact Hle. reflexivity.
+  - rewrite N.min_r by lia. symmetry. apply B_const; [lia|].
+    intros k Hk _. apply delta_of_above. lia.
+Qed.
+
+Lemma book_is_obs i b n :
+  book_is (delta_i i) b n -> obs_book_is i b = true.
+Proof.
+  intros (Hs & [Hb Ha] & Lb & La). unfold obs_book_is. rewrite Hs, !Bcap_B.
   apply andb_true_iff. split; apply side_is_map_complete; assumption.
 Qed.
 
@@ -216,17 +248,18 @@ Qed.
 Definition delta_prices (dl : list (list (Z * Z) * list (Z * Z))) : list Z :=
   flat_map (fun d => map fst (fst d) ++ map fst (snd d)) dl.
 
-Lemma dside_delta_of_in dl sd n x :
-  In x (dside (delta_of dl) sd n) -> In (fst x) (delta_prices dl).
+Lemma dside_delta_of_in base dl sd n x :
+  In x (dside (delta_of base dl) sd n) -> In (fst x) (delta_prices dl).
 Proof.
   unfold dside, delta_of, delta_prices. intros H.
-  destruct (Nat.lt_ge_cases (N.to_nat n) (length dl)) as [Hlt|Hge].
-  - apply in_flat_map. exists (nth (N.to_nat n) dl ([], [])). split; [apply nth_In; exact Hlt|].
+  destruct (N.ltb n base); [destruct sd; destruct H|].
+  destruct (Nat.lt_ge_cases (N.to_nat (n - base)) (length dl)) as [Hlt|Hge].
+  - apply in_flat_map. exists (nth (N.to_nat (n - base)) dl ([], [])). split; [apply nth_In; exact Hlt|].
     apply in_or_app. destruct sd; [left|right]; apply in_map; exact H.
   - rewrite nth_overflow in H by exact Hge. destruct sd; destruct H.
 Qed.
 
-Lemma B_off_grid dl sd n p : ~ In p (delta_prices dl) -> B (delta_of dl) sd n p = None.
+Lemma B_off_grid base dl sd n p : ~ In p (delta_prices dl) -> B (delta_of base dl) sd n p = None.
 Proof.
   intros H. unfold B. rewrite spec_upsert_last_write, last_write_not_in; [reflexivity|].
   intros Hin. apply H. apply in_map_iff in Hin as (x & Ex & Hx). subst p.
@@ -248,10 +281,10 @@ Qed.
 Lemma snapshot_book_is i :
   nodup_prices (c_sbids i) = true -> nodup_prices (c_sasks i) = true ->
   obs_book_is i (update empty_book (snapshot_event i)) = true ->
-  book_is (delta_of (c_deltas i)) (update empty_book (snapshot_event i)) (c_L i).
+  book_is (delta_i i) (update empty_book (snapshot_event i)) (c_L i).
 Proof.
   intros Nb Na H. unfold obs_book_is, snapshot_event in H. cbn [update bseq bids asks] in H.
-  apply andb_true_iff in H as [Hb Ha].
+  rewrite !Bcap_B in H. apply andb_true_iff in H as [Hb Ha].
   assert (G : forall p, ~ In p (grid_of i) ->
                         ~ In p (map fst (c_sbids i)) /\ ~ In p (map fst (c_sasks i)) /\
                         ~ In p (delta_prices (c_deltas i))).
@@ -259,10 +292,10 @@ Proof.
     repeat split; intros Hin; apply Hp; apply dedup_in; fold (delta_prices (c_deltas i));
       rewrite !in_app_iff; tauto. }
   apply side_is_map_sound in Hb as [Sb Lb].
-  2:{ intros p Hp. destruct (G p Hp) as (G1 & _ & G3). split; [|apply B_off_grid; exact G3].
+  2:{ intros p Hp. destruct (G p Hp) as (G1 & _ & G3). split; [|apply (B_off_grid (c_base i)); exact G3].
       rewrite lookup_sort_levels. apply lookup_not_in. exact G1. }
   apply side_is_map_sound in Ha as [Sa La].
-  2:{ intros p Hp. destruct (G p Hp) as (_ & G2 & G3). split; [|apply B_off_grid; exact G3].
+  2:{ intros p Hp. destruct (G p Hp) as (_ & G2 & G3). split; [|apply (B_off_grid (c_base i)); exact G3].
       rewrite lookup_sort_levels. apply lookup_not_in. exact G2. }
   unfold book_is, snapshot_event. cbn [update bseq bids asks]. split; [reflexivity|].
   split; [split; assumption|]. split; assumption.
@@ -275,7 +308,7 @@ Proof. unfold msg_of. destruct (find_inst (d_sid d) insts); repeat split. Qed.
 
 Lemma genuine_b_sound v insts i d :
   find_inst (d_sid d) insts = Some i -> genuine_b v i d = true ->
-  genuine (delta_of (c_deltas i)) v (msg_of insts d).
+  genuine (delta_i i) v (msg_of insts d).
 Proof.
   intros Hf H. unfold genuine_b in H. apply andb_true_iff in H as [HUu Hv].
   unfold genuine, msg_of. rewrite Hf. cbn [m_U m_u m_pu m_bids m_asks].
@@ -288,7 +321,7 @@ Proof.
     replace (d_pu d + 1 + N.of_nat (N.to_nat (n - d_pu d - 1)))%N with n in Hgap by lia.
     assert (Hin : In (N.to_nat (n - d_pu d - 1)) (List.seq 0%nat (N.to_nat (d_U d - d_pu d - 1)))).
     { apply in_seq. lia. }
-    specialize (Hgap Hin). destruct (delta_of (c_deltas i) n) as [[|? ?] [|? ?]]; try discriminate. reflexivity.
+    specialize (Hgap Hin). destruct (delta_i i n) as [[|? ?] [|? ?]]; try discriminate. reflexivity.
 Qed.
 
 (** ** looking instruments up by subscription id / by key *)
@@ -428,7 +461,7 @@ Section Steps.
   Definition Sem (stopped : list N) (t : list (N * meta)) (bs : list (N * book)) : Prop :=
     forall i, In i insts -> memN (c_sid i) stopped = false ->
       exists s b, tfind (c_sid i) t = Some (mkMeta (c_key i) s) /\ bfind (c_key i) bs = Some b /\
-                  book_is (delta_of (c_deltas i)) b (sq_last s).
+                  book_is (delta_i i) b (sq_last s).
 
   Lemma memN_cons x y l : memN x (y :: l) = false -> x <> y /\ memN x l = false.
   Proof.
@@ -470,7 +503,7 @@ Section Steps.
       { intros j Hj Hm. apply memN_cons in Hm as [Hne Hm]. rewrite <- Esid in Hne.
         destruct (Frame j Hj Hne) as [F1 F2]. rewrite F1, F2. apply HS; assumption. }
       assert (SemKeep : (memN (d_sid d) stopped = false ->
-                         book_is (delta_of (c_deltas i)) (i_book st1) (sq_last (i_seq st1))) ->
+                         book_is (delta_i i) (i_book st1) (sq_last (i_seq st1))) ->
                         Sem stopped t' bs').
       { intros Hi j Hj Hm. destruct (N.eq_dec (c_sid j) (c_sid i)) as [E|Hne].
         - assert (j = i) by exact (find_by_inj c_sid insts j i Nsid Hj Hin E). subst j.
@@ -483,10 +516,10 @@ Section Steps.
       2:{ apply (IH os t' bs' (d_sid d :: stopped) bsf HT' HB' SemStop Hc). }
       (* a genuine message for an instrument still judged *)
       pose proof (genuine_b_sound v insts i d Hfi Hgen) as Hg.
-      assert (Hinv : book_is (delta_of (c_deltas i)) (i_book st1) (sq_last (i_seq st1))).
+      assert (Hinv : book_is (delta_i i) (i_book st1) (sq_last (i_seq st1))).
       { rewrite <- Esid in Hstopped. destruct (HS i Hin Hstopped) as (s0 & b0 & F1 & F2 & F3).
         rewrite Esid, Hf in F1. injection F1 as <-. rewrite Hb in F2. injection F2 as <-.
-        exact (step1_inv (delta_of (c_deltas i)) v (mkIst s b) (msg_of insts d) Hg F3). }
+        exact (step1_inv (delta_i i) v (mkIst s b) (msg_of insts d) Hg F3). }
       rewrite Hout. destruct r as [| |e]; cbn [tout_of oclass_of].
       + apply (IH os t' bs' stopped bsf HT' HB'); [|exact Hc]. apply SemKeep. intros _. exact Hinv.
       + cbn [tout_of] in Hbook. destruct Hbook as (b'' & Hb'' & Hob). rewrite Hob, N.eqb_refl. cbn [andb].
